@@ -196,6 +196,29 @@ def specOk {Loc : Type} [DecidableEq Loc] (pairs : List (String × String)) (rep
           res.loads.isEmpty && pairs.any (fun p => p.2 == requested && (locationFor p.1).isNone)
       | .err _ => true)
 
+/-- The same statement when the loads themselves cannot be observed (the helper is wholesym's own, the files
+are real files): judged on the response class and the returned content alone. `fileLen` = what the operating
+system reads for exactly the path string of a location. `ok n`: the request is well formed, its path is a
+reported one, and `n` is the content of the location of the raw path — as it stands — of a frame of this
+address spelled that way; an open error / a refused location only if that is what the helper and the file
+system say about such a frame's raw path; every reported path is accepted; nothing else is. -/
+def specOkContent {Loc : Type} (pairs : List (String × String)) (reported : List String)
+    (locationFor : String → Option Loc) (fileLen : Loc → Option Nat) (wellFormed : Bool)
+    (requested : String) (o : Outcome) : Bool :=
+  let cands := pairs.filter (fun p => p.2 == requested)
+  match o with
+  | .ok n => wellFormed && reported.contains requested &&
+      cands.any (fun p => match locationFor p.1 with
+        | some l => fileLen l == some n
+        | none => false)
+  | .err .openFile => wellFormed && reported.contains requested &&
+      cands.any (fun p => match locationFor p.1 with
+        | some l => fileLen l == none
+        | none => false)
+  | .err .refusedLocation => wellFormed && reported.contains requested &&
+      cands.any (fun p => (locationFor p.1).isNone)
+  | .err _ => !(wellFormed && reported.contains requested)
+
 def pairsOf (apiPath : SourceFilePath → String) (fs : List Frame) : List (String × String) :=
   (filePaths fs).map (fun fp => (fp.rawPath, apiPath fp))
 
